@@ -9,8 +9,10 @@ PID = "C16"
 MON = ["C01", "C03", "C04", "C05"]
 
 
-def job(D, mode, seed, faults=()):
+def job(D, mode, seed, faults=(), extra=None):
     o = {"max_fun_evals": {"det": 60 + 20 * D, "auto": 110, "decl": 110, "spec": 110}[mode], "noise_final_samples": 3}
+    if extra:
+        o.update(extra)
     return dict(D=D, geo="lin", x0="in", mode=mode, target="sphere_in", cons=None, seed=seed, opts=o, monitors=MON, script={"fit": sorted(faults)})
 
 
@@ -73,6 +75,9 @@ def run(ctx):
                         "ten failures in a row exhaust the retry loop by design and are outside the statement's '2-4'"]
     cfgs = [(D, m) for D in (1, 2) for m in ("det", "auto", "decl", "spec") if not (q and D == 2 and m in ("auto",))]
     bases = [job(D, m, seed) for D, m in cfgs]
+    # other valid GP mean functions (their hyperparameters have different priors / no priors)
+    bases += [job(D, m, seed, extra={"gp_mean_fun": mf, "max_fun_evals": 45 if m == "det" else 75}) for D in (1, 2) for m in ("det", "decl") for mf in ("zero", "negquad")
+              if not (q and D == 2 and m == "decl")]
     jobs = []
     for b, r in zip(bases, pmap(execute, bases)):
         if r["exc"] is not None:
